@@ -33,6 +33,7 @@ func init() {
 			{"C01.plan-tiling", "plan segments tile the index: first=current, last=current+advance-1, current+=advance, advance>=1", 4, c01PlanTiling},
 			{"C01.chunks-verified", "every chunk a store hands to the assembler was verified against the requested id (shared with C03)", 16, func(c *Ctx) { c03CtorVerifies(c); c03Backends(c) }},
 			{"C01.cancel-not-success", "a cancelled assembly or plan validation never reports success", 2, func(c *Ctx) { c.doneIsErrorFor("AssembleFile", "Plan.Validate") }},
+			{"C01.retry-observes-ctx", "the re-plan loop does not repeat an interrupted validation (assembly never spins; shared with C07)", 1, c07RetryObservesCtx},
 			{"C01.errgroup", "assembly workers run under errgroup; success only through g.Wait()", 2, func(c *Ctx) { c.errgroupRule("AssembleFile", "Plan.Validate") }},
 			{"C01.worker-errors", "a failed copy, read, write or chunk fetch fails the assembly worker", 1, c01WorkerErrors},
 			{"C01.validate-marks-invalid", "every seed failure reported by Plan.Validate marks that seed invalid (re-planning terminates)", 2, c01MarksInvalid},
